@@ -171,6 +171,210 @@ pub fn step<S: Src, const CUR_KIND: u8, const DATA_IS_BLOCK: bool, const CUR_LEN
     std::mem::forget(chunks);
 }
 
+// ---------------------------------------------------------------------------
+// Whole-function harness for `Cache::get_chunks` (real types).
+//
+// What makes it feasible (DESIGN §5 C27): under Kani the vector of produced
+// batches is never materialised. `Vec::push` is stubbed by a function that
+// RECORDS a batch (kind, range, item count, whether its items are the heights of
+// its range) in a small ghost log and forgets it, and behaves like the real push
+// for every other element type; `push_missing_chunks` is replaced by its contract
+// (decided on the real function by `c27_gap`), which records through the same
+// log; `collect_cache_data` (BTreeMap range scan) is replaced by the environment
+// model "exactly N cached headers at ascending in-range heights"; the destructor
+// loops of transactions (dead here: no block is ever built) get a per-loop
+// unwinding limit. The native replay uses none of this: a REAL cache is filled
+// through `insert_headers` and the REAL `get_chunks` output is read back.
+// ---------------------------------------------------------------------------
+pub const LOGMAX: usize = 8;
+pub type LogEntry = (u8, u32, u32, u32, bool);
+
+pub fn log_entry(chunk: &CachedDataBatch) -> LogEntry {
+    let (kind, s0, e0, cnt) = hk::view(chunk);
+    let mut items_ok = true;
+    if kind != 0 {
+        let mut j = 0usize;
+        while j < 4 {
+            if j < cnt && hk::item_height(chunk, j) != Some(s0.wrapping_add(j as u32)) {
+                items_ok = false;
+            }
+            j += 1;
+        }
+    }
+    (kind, s0, e0, cnt as u32, items_ok)
+}
+
+#[cfg(kani)]
+pub mod whole_env {
+    use super::*;
+    pub static mut LOG: [LogEntry; LOGMAX] = [(0, 0, 0, 0, true); LOGMAX];
+    pub static mut LOG_N: usize = 0;
+    pub static mut ITEMS: [u32; 3] = [0; 3];
+    pub static mut NITEMS: usize = 0;
+
+    pub fn record(chunk: &CachedDataBatch) {
+        let e = log_entry(chunk);
+        unsafe {
+            let n = *std::ptr::addr_of!(LOG_N);
+            if n < LOGMAX {
+                (*std::ptr::addr_of_mut!(LOG))[n] = e;
+            }
+            *std::ptr::addr_of_mut!(LOG_N) = n + 1;
+        }
+    }
+
+    /// Replaces `Vec::push` for every element type in the harness.
+    pub fn push_model<T, A: std::alloc::Allocator>(v: &mut Vec<T, A>, x: T) {
+        if std::mem::size_of::<T>() == std::mem::size_of::<CachedDataBatch>()
+            && std::mem::align_of::<T>() == std::mem::align_of::<CachedDataBatch>()
+        {
+            // the only vector of that element type in this harness is `chunks`
+            let chunk: &CachedDataBatch = unsafe { &*(&x as *const T as *const CachedDataBatch) };
+            record(chunk);
+            std::mem::forget(x);
+        } else {
+            let len = v.len();
+            v.reserve(1);
+            unsafe {
+                std::ptr::write(v.as_mut_ptr().add(len), x);
+                v.set_len(len + 1);
+            }
+        }
+    }
+
+    pub fn gap_model(_chunks: &mut Vec<CachedDataBatch>, cur: u32, height: u32, max: NonZeroU32, _end: u32) {
+        let mut at = cur;
+        while at < height {
+            let e = at.saturating_add(max.get()).min(height);
+            record(&CachedDataBatch::None(at..e));
+            at = e;
+        }
+    }
+
+    pub fn collect_model(_c: &Cache, _range: std::ops::RangeInclusive<u32>) -> Vec<(u32, CachedData)> {
+        unsafe {
+            let n = *std::ptr::addr_of!(NITEMS);
+            let items = *std::ptr::addr_of!(ITEMS);
+            // built without `push` (which is stubbed in this harness)
+            match n {
+                0 => Vec::with_capacity(1),
+                1 => vec![(items[0], CachedData::Header(header(items[0])))],
+                2 => vec![
+                    (items[0], CachedData::Header(header(items[0]))),
+                    (items[1], CachedData::Header(header(items[1]))),
+                ],
+                _ => vec![
+                    (items[0], CachedData::Header(header(items[0]))),
+                    (items[1], CachedData::Header(header(items[1]))),
+                    (items[2], CachedData::Header(header(items[2]))),
+                ],
+            }
+        }
+    }
+}
+
+/// `get_chunks(start..=start+len-1, max)` with exactly N cached headers.
+/// LAYOUT = 0: range length and the cached offsets are symbolic.
+/// LAYOUT = 0xABC (hex digits, N = 2 only): range length A, cached offsets B and C
+/// are fixed (the start height and the batch size stay symbolic) — two cached
+/// items with symbolic positions exhaust 44 GB in CBMC.
+pub fn whole<S: Src, const RANGE_MAX: u32, const N: usize, const LAYOUT: u32>(s: &mut S) {
+    let start = s.u32();
+    let len = if LAYOUT == 0 { s.u32() } else { (LAYOUT >> 8) & 0xf };
+    let max = s.u32();
+    vassume!(len >= 1 && len <= RANGE_MAX);
+    vassume!(max >= 1 && max <= RANGE_MAX);
+    vassume!(start <= u32::MAX - RANGE_MAX - 1);
+    let last = start + (len - 1);
+    let mut items = [0u32; 3];
+    let mut prev: Option<u32> = None;
+    let mut i = 0;
+    while i < N {
+        let off = if LAYOUT == 0 { s.u32() } else if i == 0 { (LAYOUT >> 4) & 0xf } else { LAYOUT & 0xf };
+        vassume!(off < len);
+        let h = start + off;
+        if let Some(p) = prev {
+            vassume!(h > p);
+        }
+        prev = Some(h);
+        items[i] = h;
+        i += 1;
+    }
+    #[allow(unused_mut)]
+    let mut cache = Cache::new();
+    #[cfg(kani)]
+    let (n_log, log) = {
+        use whole_env::*;
+        unsafe {
+            *std::ptr::addr_of_mut!(ITEMS) = items;
+            *std::ptr::addr_of_mut!(NITEMS) = N;
+            *std::ptr::addr_of_mut!(LOG_N) = 0;
+        }
+        let stream = cache.get_chunks(start..=last, NonZeroU32::new(max).unwrap());
+        std::mem::forget(stream);
+        unsafe { (*std::ptr::addr_of!(LOG_N), *std::ptr::addr_of!(LOG)) }
+    };
+    #[cfg(not(kani))]
+    let (n_log, log) = {
+        let mut i = 0;
+        while i < N {
+            hk::insert_header(&mut cache, items[i], header(items[i]));
+            i += 1;
+        }
+        let stream = cache.get_chunks(start..=last, NonZeroU32::new(max).unwrap());
+        let chunks: Vec<CachedDataBatch> = futures::executor::block_on(futures::StreamExt::collect::<Vec<_>>(stream));
+        let mut log = [(0u8, 0u32, 0u32, 0u32, true); LOGMAX];
+        let mut i = 0;
+        while i < chunks.len() && i < LOGMAX {
+            log[i] = log_entry(&chunks[i]);
+            i += 1;
+        }
+        (chunks.len(), log)
+    };
+    std::mem::forget(cache);
+
+    vassert!(n_log <= LOGMAX && n_log <= RANGE_MAX as usize, "C27 there are never more batches than heights");
+    let end = last + 1;
+    let mut at = start;
+    let mut cached_total = 0u32;
+    let mut delivered = [false; 3];
+    let mut i = 0;
+    while i < RANGE_MAX as usize {
+        if i < n_log {
+            let (kind, s0, e0, cnt, items_ok) = log[i];
+            vassert!(s0 == at, "C27 every batch starts where the previous one ended (no gap, no overlap, in order)");
+            vassert!(e0 > s0, "C27 no batch is empty");
+            vassert!(e0 - s0 <= max, "C27 no batch is larger than the batch size");
+            vassert!(e0 <= end, "C27 no batch reaches past the requested range");
+            if kind != 0 {
+                vassert!(kind == 1, "C27 cached headers are delivered as a header batch");
+                vassert!(cnt == e0 - s0, "C27 a cached batch carries one item per height");
+                vassert!(items_ok, "C27 a cached batch carries exactly the cached items for its heights, in order");
+                cached_total += cnt;
+            }
+            let mut k = 0;
+            while k < N {
+                if s0 <= items[k] && items[k] < e0 {
+                    vassert!(kind == 1, "C27 a cached height is delivered in a cached batch");
+                    delivered[k] = true;
+                }
+                k += 1;
+            }
+            at = e0;
+        }
+        i += 1;
+    }
+    vassert!(at == end, "C27 the batches cover the requested range to its end");
+    let mut k = 0;
+    while k < N {
+        vassert!(delivered[k], "C27 every cached height is delivered from the cache");
+        k += 1;
+    }
+    vassert!(cached_total as usize == N, "C27 cached batches carry only cached heights");
+    vreach!();
+    vreach!(n_log >= 3, "C27 three or more batches reachable");
+}
+
 #[cfg(kani)]
 mod proofs {
     use super::*;
@@ -204,4 +408,20 @@ mod proofs {
     step_proof!(c27_step_blocks2_header, 2, false, 2);
     step_proof!(c27_step_blocks1_block, 2, true, 1);
     step_proof!(c27_step_blocks2_block, 2, true, 2);
+
+    macro_rules! whole_proof {
+        ($name:ident, $r:expr, $n:expr, $unwind:expr, $layout:expr) => {
+            #[kani::proof]
+            #[kani::stub(std::rt::thread_cleanup, crate::noop)]
+            #[kani::stub(fuel_core_sync::import::cache_verif::Cache::collect_cache_data, whole_env::collect_model)]
+            #[kani::stub(fuel_core_sync::import::cache_verif::Cache::push_missing_chunks, whole_env::gap_model)]
+            #[kani::stub(std::vec::Vec::push, whole_env::push_model)]
+            #[kani::unwind($unwind)]
+            fn $name() {
+                whole::<_, $r, $n, $layout>(&mut KaniSrc);
+            }
+        };
+    }
+    whole_proof!(c27_whole_r4_n0, 4, 0, 6, 0);
+    whole_proof!(c27_whole_r4_n1, 4, 1, 6, 0);
 }
